@@ -142,6 +142,8 @@ InnerLies == <<
   <<0, 0, 0, 2, 0, 1>>, <<0, 0, 0, 2, 255, 255>>, <<0, 0, 0, 1, 0>>,    \* ... in a two-byte body; a one-byte body
   <<0, 16, 0, 2, 0, 1>>, <<0, 10, 0, 2, 0, 2>>, <<0, 13, 0, 2, 0, 4>>, <<0, 48, 0, 2, 0, 1>>, <<0, 45, 0, 1, 1>>,   \* the same for the other list-valued extensions
   <<0, 0, 0, 6, 0, 4, 0, 0, 9, 97>>,      \* SNI name length beyond the list: the list stops (many0)
+  <<0, 0, 0, 6, 0, 4, 1, 0, 9, 97>>, <<0, 0, 0, 6, 0, 4, 255, 0, 2, 97>>, <<0, 0, 0, 6, 0, 4, 7, 255, 255, 97>>,   \* ... the same whatever the name type says
+  <<0, 0, 0, 10, 0, 8, 0, 0, 1, 97, 1, 0, 9, 98>>,   \* ... and after a well-framed entry: the first name stays, the over-long one is not a name
   <<0, 10, 0, 4, 0, 3, 0, 23>>,           \* groups: odd inner length
   <<0, 10, 0, 3, 0, 4, 0>>,               \* groups: inner length beyond
   <<0, 11, 0, 2, 5, 0>>,                  \* point formats beyond
